@@ -89,6 +89,8 @@ fn check1(backend: &str, f: &Fn1, x: f32, r: &mut Report, maxerr: Option<&String
     match caught(|| (f.f)(x)) {
         Err(p) => r.violation(format!("{backend}-{}-panic|{:#010x}", f.name, x.to_bits()), format!("{backend}::{}({x:e}) panicked: {p}", f.name), obj! {"kind" => "fn1", "backend" => backend, "name" => f.name, "x" => fbits(x)}),
         Ok(got) => {
+            // an absolute value never carries a sign: abs(-0.0) is +0.0 (1 / abs(x) must not come out as -inf)
+            if f.name == "abs" && !got.is_nan() && got.is_sign_negative() { r.violation(format!("{backend}-abs|sign|{:#010x}", x.to_bits()), format!("{backend}::abs({x:e}) = {got:e} has its sign bit set"), obj! {"kind" => "fn1", "backend" => backend, "name" => f.name, "x" => fbits(x)}); return; }
             let (ok, e) = judge(got, want, f.b);
             if let Some(site) = maxerr { if e.is_finite() { r.margin(site, e, 1.0); } }
             if !ok {
